@@ -682,7 +682,9 @@ func RuleD4(which ...string) Rule {
 						negs := 0
 						var negCall *ssa.Call
 						otherWrite := false
-						for _, call := range callsOnPath(path, func(cc *ssa.CallCommon) bool { return len(cc.Args) > 0 && cc.Args[0] == ssa.Value(root) && !cc.IsInvoke() }) {
+						for _, call := range callsOnPath(path, func(cc *ssa.CallCommon) bool {
+							return len(cc.Args) > 0 && cc.Args[0] == ssa.Value(root) && !cc.IsInvoke()
+						}) {
 							f := core.Callee(call.Common())
 							switch {
 							case core.IsMethod(f, "bls12-381/fr", "Element", "Neg") && len(call.Call.Args) == 2 && call.Call.Args[1] == ssa.Value(root):
